@@ -17,20 +17,20 @@ CHECKS = {
  "C11": ("exploration", "5 C11", "model-map monitor + storage-log grammar: post-state of DELETE vs prior minus the keys of the engine's own SELECT; no Put events; both strategies and multi-batch deletes gated; plus sequential put/remove/delete/select histories against a model map",
          "Key set taken from the engine's own select on a copy of the prior state (the property is that equivalence). Snapshot cursors.",
          "runtime monitoring: model map and event-log grammar, single statements and histories"),
- "C12": ("exploration", "5 C12", "model-map monitor + storage-log grammar: written pairs/keys equal the reference-evaluated ones, once, in order; zero writes when an expression fails (failing expression placed at every position); extra polls return nothing; follow-up select observes the write; put/remove roundtrips over the same key expression",
+ "C12": ("exploration", "5 C12", "model-map monitor + storage-log grammar: written pairs/keys equal the reference-evaluated ones, once, in order; zero writes when an expression fails (failing expression placed at every position); extra polls return nothing; follow-up select observes the write; put/remove roundtrips over the same key expression; pair independence (a pair writes next to other pairs what it writes in a statement of its own)",
          "Reference evaluator for key/value expressions; float renderings not generated.",
          "runtime monitoring: event-log grammar and model map with injected evaluation failures"),
  "C13": ("fault_enumeration", "5 C13", "fault injection at the Storage boundary: for every statement/store/mode the fault-free call sequence is recorded and EVERY call position is failed once; the log grammar forbids any call after the failed one and requires an error that errors.Is the injected one; SELECT / rejected statements must log no mutating call; a failed write plan polled again must stay stopped",
          "Single faults; caller stops polling at the first error; statement list + generated statements (not all programs).",
          "runtime monitoring: exhaustive single-fault enumeration with an event-log grammar"),
  "C16": ("exploration", "5 C16", "token-truth monitor + reference tokenizer on EVERY string up to a length bound over two token-relevant alphabets (exhaustive), plus the spacing law on generated token streams rendered with every subset of optional blanks",
-         "Blank is the only separator; unterminated quotes / lone ^ ~ are not judged. Trusted base: 60-line reference tokenizer.",
+         "Blank is the only separator; texts with an unterminated quote are not judged (*= and a lone ~ or ^ are: each is a token by itself). Trusted base: 60-line reference tokenizer.",
          "runtime monitoring: exhaustive bounded enumeration against a reference tokenizer"),
  "C18": ("exploration", "5 C18", "storage-log grammar: over the event log of a full drain every key passed to Get or returned by Next must lie in the region of one pinning conjunct (+1 key beyond its end), point reads only for =/IN, no storage call for clauses unsatisfiable on their face; all canonical shapes enumerated, each inside varying statement forms (LIMIT, ORDER BY, aggregate, delete), over a dense and a sparse store, and re-run with every Seek call failing once",
          "Canonical shapes with the key on the left, literals from a 6-literal pool, one dense store.",
          "runtime monitoring: event-log grammar over exhaustively enumerated key-pinning shapes"),
 
- "C04": ("exploration", "5 C04", "differential runtime monitor: every generated expression is parsed twice, one copy rewritten by ExpressionOptimizer.Optimize(), and both evaluated with Execute and ExecuteBatch on a store; kind+value must agree wherever the original evaluates; second witness: the full query through BuildPlan vs the reference evaluator. Exhaustive depth-1 and one-sided depth-2 numeric trees, sampled comparisons / Boolean constants / re-association chains / constant calls",
+ "C04": ("exploration", "5 C04", "differential runtime monitor: every generated expression is parsed twice, one copy rewritten by ExpressionOptimizer.Optimize(), and both evaluated with Execute and ExecuteBatch on a store; kind+value must agree wherever the original evaluates; second witness: the full query through BuildPlan vs the reference evaluator. Exhaustive depth-1 and one-sided depth-2 numeric trees, sampled comparisons / Boolean constants (symbols and keywords) / re-association chains / constant calls of every function with a vector twin / Boolean constants next to aggregate comparisons (one row, the operands' value)",
          "Floats are dyadic so equality is exact; -0 and +0 are the same value; str() of floats not generated (rendering undocumented).",
          "runtime monitoring: before/after-rewrite differential on the real evaluator"),
  "C05": ("exploration", "5 C05", "differential runtime monitor over {aliased text, alias-expanded text} x {cache on, off} x {row, batch}: all eight outcomes must agree; every row as wide as FieldNameList(); columns of core-language fields equal the reference evaluator on that row's pair; also duplicate field names, names/keys with colliding concatenations, list-valued named fields, ORDER BY on name-defined fields; gates on cache hits and on rejected rows between accepted ones",
@@ -45,13 +45,13 @@ CHECKS = {
  "C09": ("exploration", "5 C09", "reference-fold monitor: the aggregate statement's rows vs an independent fold (count/sum/min/max/avg/group_concat/json_arrayagg, arithmetic around them) over the rows of the corresponding plain select; group identity by value tuples in first-appearance order; stores with colliding concatenations; zero-row and no-GROUP-BY cases; both modes",
          "Per-row values come from the engine's own plain select (property's observe_at). quantile excluded (approximate).",
          "runtime monitoring: independent aggregate fold over the engine's per-row values"),
- "C10": ("exploration", "5 C10", "reference re-implementation monitor: each scalar function and list/JSON indexing evaluated by refeval from its README description; exhaustive over unary templates x a text pool with constant and row-dependent arguments in both modes; sampled list constructors, distances (incl. unequal lengths must fail), JSON navigation, row-dependent separators",
+ "C10": ("exploration", "5 C10", "reference re-implementation monitor: each scalar function and list/JSON indexing evaluated by refeval from its README description; exhaustive over unary templates x a text pool with constant and row-dependent arguments in both modes; sampled list constructors (numbers and texts), distances (incl. unequal lengths must fail, JSON arrays as vectors), JSON navigation, conversions of members of mixed type, row-dependent separators",
          "Arguments whose reading the docs leave open are not judged. Float results compared with relative tolerance 1e-12; decimal text read to the nearest double.",
          "runtime monitoring: reference re-implementation over exhaustive argument pools"),
- "C14": ("exploration", "5 C14", "typed-grammar monitor: well-typed generated statements must be accepted and execute without error in both modes; single-fault mutants (operand types, non-Boolean WHERE/!, forbidden key/value, unknown function, arity +-1) at 15 syntactic positions (incl. below field accesses, in folded-away operands, through duplicated names, aggregate parameters) must make BuildPlan fail with an EMPTY storage event log",
+ "C14": ("exploration", "5 C14", "typed-grammar monitor: well-typed generated statements must be accepted and execute without error in both modes; single-fault mutants (operand types, non-Boolean WHERE/!, forbidden key/value, unknown function, arity +-1) at 22 syntactic positions (incl. below field accesses, in folded-away operands, through duplicated names and name chains, aggregate parameters, non-Boolean DELETE filters, keyword and/or operands, Boolean IN operands, list equality, aggregates outside the positions the aggregate plan looks at, elements of number lists, non-Boolean field names under & |) must make BuildPlan fail with an EMPTY storage event log",
          "Typing table from README/spec. Function argument types are not part of the property. Data-dependent failures excluded by construction.",
          "runtime monitoring: accept/reject oracle with zero-call storage-log grammar"),
- "C15": ("exploration", "5 C15", "structural AST monitor: the generator owns the tree; Parser.Parse's AST is compared structurally with it for every flat operator sequence up to length 3 (quick) / 4 (thorough) over 18 operator spellings (exhaustive) and for random trees under minimal/random/full parenthesisation and random case, in every expression slot; then the canonical String() is re-parsed and must give the same tree and the same rendering",
+ "C15": ("exploration", "5 C15", "structural AST monitor: the generator owns the tree; Parser.Parse's AST is compared structurally with it for every flat operator sequence up to length 3 (quick) / 4 (thorough) over 18 operator spellings (exhaustive) and for random trees under minimal/random/full parenthesisation and random case, in every expression slot; then the canonical String() is re-parsed and must give the same tree and the same rendering; the filter shown by Explain() is run as a statement of its own (same rows, same text again); statement twins differing only in the letter case inside literals",
          "Documented precedence table; literals without quote characters; & vs and spelling ignored.",
          "runtime monitoring: structural comparison against a reference precedence climber, print/re-parse fixpoint"),
 
